@@ -390,7 +390,11 @@ func (rs *c19responder) onSend(f rsocks.Frame) {
 		}
 	}
 	if out != nil {
-		time.AfterFunc(10*time.Millisecond, func() { rs.seg.Inject(rsocks.KindIP, out) })
+		d := 10 * time.Millisecond
+		if rs.mode == "slow" { // the answer comes after the first retransmissions
+			d = 2500 * time.Millisecond
+		}
+		time.AfterFunc(d, func() { rs.seg.Inject(rsocks.KindIP, out) })
 	}
 }
 
@@ -737,6 +741,7 @@ func TestC19ClientFaults(t *testing.T) {
 		})
 	}
 	// the whole client with the n-th open / write failing: no panic, no leak, still cancellable
+	for _, mode := range []string{"normal", "slow"} {
 	for _, what := range []string{"open", "write"} {
 		for n := 1; n <= 16; n++ {
 			synctest.Test(t, func(t *testing.T) {
@@ -760,11 +765,11 @@ func TestC19ClientFaults(t *testing.T) {
 						return nil
 					}
 				}
-				c := startC19Client("normal", 120, fo, fw)
+				c := startC19Client(mode, 120, fo, fw)
 				defer c.drop()
 				time.Sleep(150 * time.Second)
 				synctest.Wait()
-				desc := fmt.Sprintf("client, %s #%d fails", what, n)
+				desc := fmt.Sprintf("client (%s responder), %s #%d fails", mode, what, n)
 				select {
 				case <-c.done:
 					vl.add("c19-client-fault", "%s: Run ended by itself (panic: %v)", desc, c.panicked)
@@ -781,11 +786,12 @@ func TestC19ClientFaults(t *testing.T) {
 				if d != 0 || c.panicked != nil || o != cl || !goroutinesAt(base0, 0) {
 					vl.add("c19-client-fault", "%s: cancel->return %v panic=%v opens=%d closes=%d goroutines=%d baseline=%d", desc, d, c.panicked, o, cl, runtime.NumGoroutine(), base0)
 				}
-				st.count(fmt.Sprintf("client-%s-fail:acked=%v", what, bound))
+				st.count(fmt.Sprintf("client-%s-%s-fail:acked=%v", mode, what, bound))
 			})
 		}
 	}
-	vl.write(t, "c19clifault", st.meta(2*2*12+2+32, "sendMessage (broadcast / unicast with 5 unanswered Pings) with the n-th open or write failing (n = 1..12): the error of the DHCP socket is returned at once, ARP socket errors are absorbed; catchReply with a failing open; the whole client with the n-th open/write failing (n = 1..16)"))
+	}
+	vl.write(t, "c19clifault", st.meta(2*2*12+2+64, "sendMessage (broadcast / unicast with 5 unanswered Pings) with the n-th open or write failing (n = 1..12): the error of the DHCP socket is returned at once, ARP socket errors are absorbed; catchReply with a failing open; the whole client with the n-th open/write failing (n = 1..16), against a prompt responder and against one that answers after the first retransmissions"))
 }
 
 // ---------------------------------------------------------------------------------------------------------------
